@@ -132,6 +132,57 @@ def scenario_worker(args: tuple[int, dict[str, Any]]) -> dict[str, Any]:
     return out
 
 
+def parallel_fault_scenario(job: dict[str, Any]) -> dict[str, Any]:
+    """A worker of a real parallel build is killed after its k-th store operation (or has its i-th write fail);
+    the runs that follow (sequential and parallel, with further edits) must report what a cold run reports."""
+    from harness import par
+    W.preload()
+    root = scratch("c04p-")
+    src, cache, gate = os.path.join(root, "src"), os.path.join(root, "cache"), os.path.join(root, "gate")
+    out: dict[str, Any] = {"violations": [], "runs": 0, "killed": False, "job": job}
+    store, n, shape = job["store"], job["n"], job["shape"]
+    par.write_program(src, shape, {}, 1000)
+    r0 = par.run_parallel(src, cache_dir=cache, n=n, gate=gate, store=store)
+    if r0.get("machinery") or r0.get("crash"):
+        out["machinery"] = True
+        shutil.rmtree(root, ignore_errors=True)
+        return out
+    par.write_program(src, shape, job["edit"], 1100)
+    rf = par.run_parallel(src, cache_dir=cache, n=n, gate=gate, store=store, worker_fault=job["fault"])
+    out["runs"] += 1
+    out["killed"] = bool([f for f in os.listdir(gate) if f.startswith("killed.")]) if os.path.isdir(gate) else False
+    out["faulted_status"] = rf.get("status")
+    if job["fault"].split(":")[1] == "fail" and not rf.get("crash") and not rf.get("machinery"):
+        ref = par.run_sequential(src, cache_dir=None)
+        if W.norm(rf) != W.norm(ref):
+            out["violations"].append({"step": "faulted", "what": "parallel run with a failed write in a worker reports differently from the sequential build: "
+                                      "only here %r / only sequential %r" % (sorted(set(rf["messages"]) - set(ref["messages"]))[:3], sorted(set(ref["messages"]) - set(rf["messages"]))[:3])})
+    # give orphaned workers (their coordinator saw the failure) time to go away: single-writer assumption
+    import time as _t
+    _t.sleep(0.3)
+    steps = [("sequential-warm", None), ("revert+sequential-warm", {}), ("edit+parallel-warm", job["edit2"])]
+    tick = 1200
+    for name, variant in steps:
+        if variant is not None:
+            tick += 100
+            par.write_program(src, shape, variant, tick)
+        if "parallel" in name:
+            r = par.run_parallel(src, cache_dir=cache, n=n, gate=gate, store=store)
+        else:
+            r = par.run_sequential(src, cache_dir=cache, store=store, tick=9000 + tick)
+        out["runs"] += 1
+        if r.get("machinery"):
+            continue
+        ref = par.run_sequential(src, cache_dir=None)
+        if r.get("crash") or W.norm(r) != W.norm(ref):
+            out["violations"].append({"step": name, "what": "%s after a faulted parallel run (%s): status %s vs cold %s; only here %r; only cold %r %s" % (
+                name, job["fault"], r.get("status"), ref["status"], sorted(set(r["messages"]) - set(ref["messages"]))[:3],
+                sorted(set(ref["messages"]) - set(r["messages"]))[:3], (r.get("crash") or "")[-300:])})
+            break
+    shutil.rmtree(root, ignore_errors=True)
+    return out
+
+
 def base_histories(tier: str, rnd: random.Random) -> list[dict[str, Any]]:
     """(w0, w1) pairs differing in exactly one module, over catalogue M (all) and R (sample)."""
     jobs = []
@@ -214,6 +265,22 @@ def main(argv: list[str]) -> int:
             if r.violated != expect:
                 raise MachineryError("specification mutant %s not rejected (%s)" % (c, r.violated))
             cov.setdefault("spec_mutants_rejected", {})[c] = r.violated
+    # ---- 2b. workers of a real parallel build killed / failing
+    pjobs = []
+    kills = range(1, 9) if tier == "quick" else range(1, 15)
+    for k in kills:
+        for ordinal in (0, 1):
+            pjobs.append({"store": "fs" if (k + ordinal) % 2 else "sqlite", "n": 2, "shape": "diamond", "edit": {1: 1}, "edit2": {1: 1, 3: 1},
+                          "fault": "%d:kill:%d" % (ordinal, k)})
+    for i in (range(1, 5) if tier == "quick" else range(1, 9)):
+        pjobs.append({"store": "fs" if i % 2 else "sqlite", "n": 2, "shape": "diamond", "edit": {1: 1}, "edit2": {2: 1}, "fault": "0:fail:%d" % i})
+    presults = []
+    with ProcessPoolExecutor(5) as pex:
+        for res in pex.map(parallel_fault_scenario, pjobs, chunksize=1):
+            presults.append(res)
+    for r in presults:
+        for x in r["violations"]:
+            v.violation("parallel-fault:" + json.dumps({"job": r["job"], "step": x["step"]}, sort_keys=True), r["job"], x["what"])
     # ---- 3. verdicts of the real enumeration
     scen = sum(r["scenarios"] for r in results)
     nontriv = sum(r["nontrivial"] for r in results)
@@ -239,7 +306,8 @@ def main(argv: list[str]) -> int:
         "states": states, "transitions": transitions,
         "evaluations": scen, "distinct_nontrivial": nontriv,
         "traces_validated_against_impl": tv["validated"],
-        "base_histories": len(work), "kill_points": sum(r["kills"] for r in results), "failed_write_runs": sum(r["fails"] for r in results),
+        "base_histories": len(work), "parallel_worker_fault_scenarios": len(presults),
+        "parallel_workers_really_killed": sum(1 for r in presults if r.get("killed")), "kill_points": sum(r["kills"] for r in results), "failed_write_runs": sum(r["fails"] for r in results),
         "rule": "base history = (world, one-module edit) x store config; the run after the edit is killed after EACH of its store "
                 "operations (real process death) and has EACH of its writes fail (thorough: also each pair), x follow-up {none, revert}; "
                 "then a clean run and a run after toggling `a`; every completed run compared with a cold run. non-trivial = scenario "
@@ -251,7 +319,7 @@ def main(argv: list[str]) -> int:
         "A-clock: logical integer mtimes; same-second aliasing excluded",
         "A-kill: process death (os._exit in a forked child), not power loss",
         "A-single-writer; builds run in-process (build.build) with the test fixtures",
-        "parallel workers' crash points are covered by C07's machinery, not here",
+        "parallel builds: a worker is killed after its k-th store operation / has its i-th write fail (k, i enumerated up to a bound); the coordinator is not killed",
     ])
 
 
